@@ -44,7 +44,7 @@ CFG = {
         "one case = one scenario on real sessions (phases of back-to-back issued events, observation at quiescence after "
         "each phase); classes: one terminating event after 0..20 queued sends (8 events x pipe/TCP), every ordered pair "
         "of terminating events sequentially and racing in one burst, flush with 0..20 sends (burst / one by one / "
-        "stalled peer that later reads), blocked write then each event, zero-length payloads between real ones, the manager's own read and "
+        "stalled peer that later reads), blocked write then each event, zero-length payloads between real ones, slow drain (50-65 queued sends, local Close, write timeout 800 ms, a peer reading one chunk every 40 ms so that the drain lasts 2-4 write timeouts while no write waits near one; net.Pipe and loopback TCP with every payload byte 8 KiB on the wire and 32 KiB socket buffers; a case is emitted only when the longest interval between peer reads and the latest 2 ms watchdog tick both stayed below a third of the write timeout, else retried up to 3 times and dropped, counted in harness_meta), the manager's own read and "
         "write deadlines firing, accept loop with maxConn 0..3 (random arrivals, surplus, exits, re-arrivals), several "
         "sessions on one manager, random walks with bursts; non-trivial = at least one session ended (OnExit observed) "
         "or one connection was closed on accept; distinct = distinct Coq case term"
